@@ -2,7 +2,7 @@
    helpers are exact and lose no roots.  Statements + exact + Print Assumptions. *)
 From Coq Require Import ZArith QArith Qcanon List Bool.
 From SVP Require Import Base.Num Base.Cplx Base.Poly Model.Bezier Model.BezierN
-     Proofs.Choose Proofs.DeCasteljau Proofs.BezierN Proofs.Roots Proofs.RatLimit.
+     Proofs.Choose Proofs.DeCasteljau Proofs.BezierN Proofs.B2PAll Proofs.Roots Proofs.RatLimit.
 Import ListNotations.
 
 (* n_choose_k is the binomial coefficient, all k <= n *)
@@ -38,7 +38,13 @@ Section C19.
   Theorem C19_reversed_all : forall p t, bern N (rev p) t = bern N p (sub N (one N) t).
   Proof. exact (bern_rev_all N OK). Qed.
 
-  (* ---- bezier2polynomial is the change of basis: per degree 0..8 ---- *)
+  (* ---- bezier2polynomial is the change of basis: ALL degrees (the general factorial
+     formula of the code, integer divisions included) ---- *)
+  Theorem C19_b2p_eval_all : forall p t, p <> [] ->
+      cpeval N (bezier2polynomial N p) t = bern N p t.
+  Proof. exact (b2p_eval_all N OK). Qed.
+
+  (* ---- the same, per degree 0..8 (by computation; kept as cross-checks) ---- *)
   Theorem C19_b2p_eval_deg0 : forall p0 t, cpeval N (bezier2polynomial N [p0]) t = bern N [p0] t.
   Proof. exact (b2p_eval_1 N OK). Qed.
   Theorem C19_b2p_eval_deg1 : forall p0 p1 t, cpeval N (bezier2polynomial N [p0; p1]) t = bern N [p0; p1] t.
@@ -156,6 +162,7 @@ Print Assumptions C19_split_left_all.
 Print Assumptions C19_split_right_all.
 Print Assumptions C19_split_meet_all.
 Print Assumptions C19_reversed_all.
+Print Assumptions C19_b2p_eval_all.
 Print Assumptions C19_b2p_eval_deg8.
 Print Assumptions C19_p2b_b2p.
 Print Assumptions C19_b2p_p2b.
